@@ -31,7 +31,21 @@ FAILING = {
     "output-of-non-nada": "from nada_dsl import *\n\ndef nada_main():\n    p = Party(name='P0')\n    return [Output(5, 'o', p)]\n",
     "key-error": "from nada_dsl import *\n\ndef nada_main():\n    return {}['x']\n",
 }
-NAMES = ["prog.py", "my-prog.py", "my.prog.py", "json.py", "os.py", "base64.py", "temp_program.py", "traceback.py", "nada_dsl_prog.py"]
+NAMES = ["prog.py", "my-prog.py", "my.prog.py", "json.py", "os.py", "typing.py", "nada_dsl.py", "base64.py", "temp_program.py",
+         "traceback.py", "nada_dsl_prog.py", "inspect.py"]
+
+# a program spread over several files: helper modules in the program's own directory
+HELPERS = {
+    "helpers_a.py": ("from nada_dsl import *\n\ndef make_a(p):\n    x = SecretInteger(Input(name='ax', party=p))\n"
+                     "    y = SecretInteger(Input(name='ay', party=p))\n    return x * y\n"),
+    "helpers_b.py": ("from nada_dsl import *\n\ndef make_b(p, v):\n    z = PublicInteger(Input(name='bz', party=p))\n    return v + z\n"),
+    "helpers_c.py": ("from nada_dsl import *\n\ndef make_c(v, w):\n    return (v < w).if_else(v, w)\n"),
+    "zz_helpers.py": ("from nada_dsl import *\n\ndef make_z(v):\n    return v - Integer(3)\n"),
+}
+MULTI = ("from typing import List\nfrom nada_dsl import *\nfrom helpers_a import make_a\nfrom helpers_b import make_b\n"
+         "from helpers_c import make_c\nfrom zz_helpers import make_z\n\n\ndef nada_main():\n    p = Party(name='P0')\n"
+         "    a = make_a(p)\n    b = make_b(p, a)\n    c = make_c(a, b)\n    d = make_z(c)\n"
+         "    outs: List[Output] = [Output(d, 'o', p)]\n    return outs\n")
 
 
 def strip_loc(m):
@@ -54,9 +68,13 @@ def run(ctx):
     fresh = progrun.run_impl(pool)
     good = [surface.to_python(p) for p, r in zip(pool, fresh) if "ok" in r]
     texts = {f"accepted-{i}": t for i, t in enumerate(good[:(5 if quick else 40)])}
+    texts = {k: (v if "from typing" in v else v.replace("from nada_dsl import *", "from typing import List\nfrom nada_dsl import *", 1))
+             for k, v in texts.items()}
     texts.update(FAILING)
+    texts["multi-file"] = MULTI
     seeds = ["0", "1", "12345"] if quick else ["0", "1", "2", "12345", "random"]
-    names = NAMES[:6] if quick else NAMES
+    names = NAMES[:7] if quick else NAMES
+    seeds = seeds + (["7", "99"] if quick else ["7", "99", "31337"])
     d = tempfile.mkdtemp(prefix="nadaverif_c13_")
     jobs = []
     try:
@@ -70,12 +88,17 @@ def run(ctx):
                 os.makedirs(pd, exist_ok=True)
                 path = os.path.join(pd, name)
                 open(path, "w").write(text)
+                if pn == "multi-file":
+                    for hn, ht in HELPERS.items():
+                        open(os.path.join(pd, hn), "w").write(ht)
                 for seed in seeds:
                     for tm in ("", "1"):
                         if quick and tm == "1" and name not in ("prog.py", "json.py"):
                             continue
                         jobs.append((pn, "cli-path", name, seed, tm, ["-m", "nada_dsl.compile", path]))
                         jobs.append((pn, "api-script", name, seed, tm, [os.path.join(d, "api_script.py"), path]))
+            if pn == "multi-file":
+                continue          # helper modules cannot be found from a base64 string
             for seed in seeds:
                 for tm in ("", "1"):
                     jobs.append((pn, "cli-s", "-", seed, tm, ["-m", "nada_dsl.compile", "-s", b64]))
@@ -101,7 +124,7 @@ def run(ctx):
     # reference outcome of each program: the base64-string API in a fresh process
     ref = {}
     for pn in texts:
-        o = by[(pn, "api-string", "-", seeds[0], "")]
+        o = by[(pn, "api-string", "-", seeds[0], "")] if pn != "multi-file" else by[(pn, "api-script", names[0], seeds[0], "")]
         ref[pn] = ("ok", strip_loc(json.loads(o.strip()[3:]))) if o.startswith("OK ") else ("exc", o.strip())
     cli_cells = []
     problems = []
